@@ -16,6 +16,9 @@ if "--avoid" in sys.argv:
             earlier.append("  - " + json.load(open(d + "/meta.json"))["summary"][:260].replace("\n", " "))
         except Exception:
             pass
+HINT = ""
+if "--hint" in sys.argv:
+    HINT = "\nSTYLE REQUESTED FOR THIS ROUND: " + sys.argv[sys.argv.index("--hint") + 1] + "\n"
 AVOID = ("\nChanges of the following kinds were already made by others for this property; yours must be DIFFERENT from all of them (different site or different mechanism) and preferably subtler:\n" + "\n".join(earlier) + "\n") if earlier else ""
 print(f"""You are given a scratch git worktree of a Rust chess workspace (crates: chess-bitboard, chess-lookup (generated lookup tables), chess-movegen (board, legal move generator, FEN), chess-engine (alpha-beta search), chess-api / chess-bot (plugin), chess-cli, chess-wasm, tracing-enabled) at {wt}. Work ONLY inside {wt}; do not read or write anything under /verif or /repo. There is no network: always pass `--offline` to cargo, and use `CARGO_TARGET_DIR={wt}/target` so build output stays inside the worktree. Start with `cd {wt} && git checkout -q -- . && git clean -fdq -e target && rm -rf out` to make sure the tree is clean.
 
@@ -25,7 +28,7 @@ Here is a semantic property the code base is supposed to satisfy:
 Statement: {p['statement']}
 Quantifier: {p.get('quantifier',{}).get('text','') if isinstance(p.get('quantifier'),dict) else p.get('quantifier','')}
 
-{AVOID}
+{AVOID}{HINT}
 YOUR TASK: produce {n} different, independent small source changes ("mutations"), each of which BREAKS this property while
   (1) the workspace still compiles, and
   (2) the existing test suite still passes unchanged: `cd {wt} && CARGO_TARGET_DIR={wt}/target cargo test --workspace --no-fail-fast --offline` (44 tests; takes about a minute),
